@@ -436,6 +436,24 @@ func (fv *FuncVer) havocLoop(st *State, f *Frame, li *loopInfo, ms *modSet, bloc
 	if !ms.all {
 		fv.havocKeys(st, hks)
 	}
+	// ghost locals updated by `aftercall <name>` hooks whose call can happen in the loop
+	if fv.block != nil && !(ms.callbacks || ms.all) {
+		for _, cl := range fv.block.ClausesOf("aftercall") {
+			hit := false
+			for n := range ms.calls {
+				if n == cl.Target || strings.HasSuffix(n, "."+cl.Target) || strings.HasSuffix(n, ")."+cl.Target) {
+					hit = true
+				}
+			}
+			if gl, ok := fv.ghostLocals[cl.Var]; ok && hit {
+				cur, ok := st.globals["gl:"+cl.Var]
+				if !ok {
+					cur = gl.init
+				}
+				st.globals["gl:"+cl.Var] = fv.ctx.Fresh("gl_"+cl.Var, cur.Sort)
+			}
+		}
+	}
 	// ghost locals are changed by callback contracts
 	if ms.callbacks || ms.all {
 		for name, gl := range fv.ghostLocals {
@@ -472,6 +490,21 @@ func (fv *FuncVer) havocLoop(st *State, f *Frame, li *loopInfo, ms *modSet, bloc
 func (fv *FuncVer) collectMods(st *State, f *Frame, blocks []*ssa.BasicBlock, ms *modSet, visited map[*ssa.Function]bool, bindings []Val) {
 	for _, b := range blocks {
 		for _, ins := range b.Instrs {
+			// channel operations and spawns are pseudo calls (aftercall hooks may update ghosts)
+			if ms.calls != nil {
+				switch y := ins.(type) {
+				case *ssa.Select:
+					ms.calls["select"] = true
+				case *ssa.Send:
+					ms.calls["chan.send"] = true
+				case *ssa.Go:
+					ms.calls["go"] = true
+				case *ssa.UnOp:
+					if y.Op == token.ARROW {
+						ms.calls["chan.recv"] = true
+					}
+				}
+			}
 			switch x := ins.(type) {
 			case *ssa.Store:
 				fv.modAddr(st, f, x.Addr, ms, bindings)
